@@ -18,6 +18,7 @@ PROFILES = {
     'shipped_sync': lambda rnd: sp.gen_shipped(rnd, dyn='syn'),
     'shipped_sto': lambda rnd: sp.gen_shipped(rnd, dyn='sto'),
     'queue': lambda rnd: sp.gen_script_queue(rnd),
+    'monitored': lambda rnd: sp.gen_monitored(rnd),
     'fixrec_sto': lambda rnd: sp.gen_shipped(rnd, classes=['SIR_FixedRecovery', 'SIS_FixedRecovery'], dyn='sto'),
     'rates_sto': lambda rnd: sp.gen_rates(rnd, 'sto'),
     'rates_syn': lambda rnd: sp.gen_rates(rnd, 'syn'),
